@@ -105,7 +105,7 @@ impl RespOut {
                         .join(",")
                 };
                 let ev = self.events.iter().map(|e| e.to_string()).collect::<Vec<_>>().join(",");
-                if self.coding == "plain" {
+                if self.coding == "plain" || std::env::var("ATTO_SHOW_EVENTS").is_ok() {
                     format!("head={} coding=plain hdrs={} ev={}", st, h, ev)
                 } else {
                     format!("head={} coding={} hdrs={} ev=~", st, self.coding, h)
